@@ -42,6 +42,11 @@ PROP(C05, C08) __CPROVER_ensures(!OK ==> (SLOT_UNCHANGED && E_UNCHANGED && g_upg
 PROP(C05, C08) __CPROVER_ensures((!g_sym._locked && (__CPROVER_old(SAME_TYPE(SLOTV, e)) || !g_sym._safety || g_check_ret != 0)) ==> OK)
 /* stored: the variable has the value's type and nullness and is owned storage; the call returns the variable */
 PROP(C05, C08) __CPROVER_ensures(OK ==> (RET == SLOTV && V_LVALUE(SLOTV) && V_MAJOR(SLOTV) == __CPROVER_old(V_MAJOR(e)) && V_LEVEL(SLOTV) == __CPROVER_old(V_LEVEL(e)) && V_ISNULL(SLOTV) == __CPROVER_old(V_ISNULL(e))))
+/* C02: the symbol's type (what the next compilation sees) is the type of the value now stored -- upgraded exactly when the type changed */
+PROP(C02) __CPROVER_ensures((OK && !__CPROVER_old(SAME_TYPE(SLOTV, e))) ==> (g_upgrade_n == 1 && g_sym._base_Type._major == V_MAJOR(SLOTV) && g_sym._base_Type._level == V_LEVEL(SLOTV) && (__CPROVER_old(V_MAJOR(e)) != ROWTYPE ==> g_sym._base_Type._minor == V_MINOR(SLOTV))))
+PROP(C02) __CPROVER_ensures((OK && __CPROVER_old(SAME_TYPE(SLOTV, e))) ==> g_upgrade_n == 0)
+/* C02: a type-protected symbol ('$' variable, loop iterator) refuses a value its constraint does not allow (check_safety says SAFE_KO) */
+PROP(C02) __CPROVER_ensures((!g_sym._locked && !__CPROVER_old(SAME_TYPE(SLOTV, e)) && g_sym._safety && g_check_ret == 0) ==> (THROWN_RT(EXC_RT_TYPE_MISMATCH_S) && SLOT_UNCHANGED))
 /* an owned value is copied: it comes out untouched and the variable holds a clone of it (none if it IS the variable) */
 PROP(C05, C08) __CPROVER_ensures((OK && __CPROVER_old(V_LVALUE(e))) ==> (E_UNCHANGED && g_clone_n == 1 && g_clone_src == e && (__CPROVER_old(!V_ISNULL(e) && (V_LEVEL(e) > 0 || V_MAJOR(e) >= LITERAL)) ==> SLOTV->_value.p != e->_value.p)))
 /* a temporary is moved: the variable takes its payload, the temporary is left null */
